@@ -23,7 +23,7 @@ func checkC14(c *Ctx) {
 	c.Rule("C14.bounds", "BOUNDS (L12): every slice / index / array conversion applied to the caller's byte slice in Write, WriteString, SetState, Compress and SIS Hash is justified by dominating comparisons with its length (no panic, no read of spare capacity outside the given slice)", 30)
 	c.Rule("C14.guard", "GUARD: MiMC Write returns a nil error only after the length is a multiple of the block size and every block was parsed by the canonical ByteOrder.Element with its error tested; SetState only with the exact length and a canonical value; Poseidon2 Compress only with both halves of the required length and canonical elements; SIS Hash only with len(res) == Degree and len(v) within the capacity", 8*2+11)
 	c.Rule("C14.state", "STATE: SetState redefines every field of the hasher that Reset redefines (restoring a state discards buffered, not yet absorbed input), and both write the chaining value", 8)
-	c.Rule("C14.alias", "ALIAS (L10): MiMC Sum/State return freshly allocated slices, Write/SetState do not retain the caller's slice; Poseidon2 Compress writes neither of its input slices and returns a slice that shares storage with none of them", 8)
+	c.Rule("C14.alias", "ALIAS (L10): MiMC Sum/State return freshly allocated slices, Write/SetState do not retain the caller's slice; Poseidon2 Compress writes neither of its input slices and returns a slice that shares storage with none of them; the Merkle-Damgard wrapper of package hash returns fresh slices from Sum/State and keeps neither the IV nor a restored state of the caller", 8)
 	c.Rule("C14.lazy", "LAZY-INIT (L17): the MiMC round constants, initialised under sync.Once, are read only after a dominating once.Do in the reader or in every caller", 8)
 	c.Rule("C14.registry", "REGISTRY (L15): every constant of hash.Hash below maxHash is registered exactly once (RegisterHash call with that constant), in the package named after it; the digestSize table has an entry for every constant and the entry equals the digest size of the registered hasher (BlockSize constant of the MiMC package / Width/2*Bytes of the default Poseidon2 parameters); String() covers every constant; hash/all imports every registering package", 19)
 
@@ -90,6 +90,23 @@ func checkC14(c *Ctx) {
 				checkNoRetainedParamSlices(c, p, "C14.alias", fn)
 			}
 		}
+	}
+	// the generic Merkle-Damgard wrapper of package hash (used by every Poseidon2 hasher)
+	c.Instance("C14.alias", 1)
+	for _, name := range []string{"Sum", "State"} {
+		if fn := p.Func("hash", "merkleDamgardHasher", name); fn != nil {
+			checkReturnedSlicesFresh(c, p, "C14.alias", fn)
+		} else {
+			c.Undecided("anchor hash.merkleDamgardHasher.%s not found", name)
+		}
+	}
+	for _, name := range []string{"SetState", "Write"} {
+		if fn := p.Func("hash", "merkleDamgardHasher", name); fn != nil {
+			checkNoRetainedParamSlices(c, p, "C14.alias", fn)
+		}
+	}
+	if fn := p.Func("hash", "", "NewMerkleDamgardHasher"); fn != nil {
+		checkNoRetainedParamSlices(c, p, "C14.alias", fn)
 	}
 	for _, pk := range pos2 {
 		if fn := p.Func(pk, "Permutation", "Compress"); fn != nil {
